@@ -365,7 +365,7 @@ class Gen:
             twice = r.random() < 0.2
             # laying out twice: a second flatten() moves an EMPTY section (and the labels bound in it) to the aligned end of its extended
             # predecessor, references resolved by the first layout would be stale - that is C10's subject, keep sections non-empty there
-            L += self.no_empty_section(nsec, force=twice)
+            L += self.no_empty_section(nsec)     # laying out twice with empty sections is fine again: flatten() is idempotent (28f9637)
             L.append("F")
             if twice:
                 L.append("F")
@@ -437,6 +437,7 @@ class Tracker:
         self.absrefs = []         # (sec, region offset, lead, size, label, addend)
         self.deltas = []          # (sec, off, size, l, b, immediate?, value bytes)
         self.nflat = 0
+        self.refused_binds = 0
         self.offs = None
         self.problems = []        # (key, what)
 
@@ -511,7 +512,19 @@ def translate(prog, hout):
         elif tag == "B":
             l = int(t[1])
             if tk.label_ok(l) and tk.labels[l] is None:
-                tk.labels[l] = (tk.cur, before)
+                # bind_label pre-checks the fixups it would patch (same section): one unencodable displacement refuses the bind and the
+                # label stays unbound (fix 6b578fc). Decided here with the monitor's own range rules.
+                bad = [rf for rf in tk.refs if rf.label == l and rf.sec == tk.cur and not encodable(rf.kind, before - rf.site + rf.rel)]
+                if bad:
+                    tk.refused_binds += 1
+                    if err != "invalid_disp":
+                        tk.problems.append(("C03/bind-accepted-unencodable", "%s at %d:%d returned %s although %s cannot reach it (displacement %d)"
+                                            % (inp, tk.cur, before, err, bad[0].line, before - bad[0].site + bad[0].rel)))
+                else:
+                    tk.labels[l] = (tk.cur, before)
+                    if err != "ok":
+                        tk.problems.append(("C03/spurious-error", "%s at %d:%d returned %s although every pending reference of the label is encodable"
+                                            % (inp, tk.cur, before, err)))
             push("BIND %d" % l, h)
         elif tag == "A" and err != "ok":
             # refused alignment: only right for code alignment at an offset that is not a multiple of 4 (AArch64) or a bad alignment value
@@ -792,6 +805,7 @@ def monitor(prog, hout, tk, stats):
     if d["unres"] != expected_unresolved:
         probs.append(("C03/unresolved-count", "unresolved_fixup_count() = %d, but %d references remain unresolved" % (d["unres"], expected_unresolved)))
     stats["programs_with_pending"] += 1 if expected_unresolved else 0
+    stats["refused_binds"] = stats.get("refused_binds", 0) + tk.refused_binds
     return probs
 
 
